@@ -439,6 +439,8 @@ class StmtMixin:
                 st.heap[key] = L.fresh("heap_" + key, z3.ArraySort(L.V, L.V))
         for f in spec.get("havoc_fields", []):
             st.heap[f] = L.fresh("heap_" + f, z3.ArraySort(L.V, L.V))
+        if getattr(self, "is_generator", False) and not self.is_ctxmgr:
+            self.yielded = ZV(L.fresh("yielded"), "seq")
         if spec.get("havoc_effects", self._loop_has_effects):
             st.effects = L.fresh("eff")
 
@@ -459,6 +461,8 @@ class StmtMixin:
 
     def inv_env(self, i, seqv):
         env = {}
+        if getattr(self, "is_generator", False):
+            env["L_yielded"] = self.yielded
         if i is not None:
             env["_i"] = ZI(i)
             env["_seq"] = seqv
